@@ -453,6 +453,10 @@ func (r *replayer) tamperEnc(m Mut) {
 		e.P.C, e.P.R = s.NonZeroScalar(), s.NonZeroScalar()
 		e.P.VG = s.Point().Add(s.Point().Mul(e.P.R, r.H), s.Point().Mul(e.P.C, sH))
 		e.P.VH = s.Point().Add(s.Point().Mul(e.P.R, r.X[p]), s.Point().Mul(e.P.C, e.S.V))
+	case "dforge":
+		if err := r.dealerForge(p); err != nil {
+			r.herr = err
+		}
 	case "key":
 		r.X[p] = r.altP(r.X[p])
 	case "com":
@@ -460,6 +464,53 @@ func (r *replayer) tamperEnc(m Mut) {
 	default:
 		swapShares(r.enc, m.K, p, q)
 	}
+}
+
+// dealerForge rebuilds the whole package the way a dishonest dealer would: a fresh polynomial for the same secret,
+// honest shares and proofs for everybody except trustee k, who gets a WRONG share with a simulated DLEQ proof under a
+// challenge of its own; the global challenge of the honest proofs is derived from the package including the forged
+// values (so it matches what any verifier recomputes).
+func (r *replayer) dealerForge(k int) error {
+	s := r.s
+	n := r.n
+	pri := share.NewPriPoly(s, uint32(r.t), r.secret, s.RandomStream())
+	ps := pri.Shares(uint32(n))
+	pol := pri.Commit(r.H)
+	_, r.commits = pol.Info()
+	v := make([]kyber.Scalar, n)
+	enc := make([]*pvss.PubVerShare, n)
+	for i := 0; i < n; i++ {
+		e := &pvss.PubVerShare{}
+		e.S.I = ps[i].I
+		if i == k {
+			e.S.V = s.Point().Mul(s.Scalar().Add(ps[i].V, s.Scalar().One()), r.X[i]) // share of another value
+			e.P.C, e.P.R = s.NonZeroScalar(), s.NonZeroScalar()
+			sH := pol.Eval(uint32(i)).V
+			e.P.VG = s.Point().Add(s.Point().Mul(e.P.R, r.H), s.Point().Mul(e.P.C, sH))
+			e.P.VH = s.Point().Add(s.Point().Mul(e.P.R, r.X[i]), s.Point().Mul(e.P.C, e.S.V))
+		} else {
+			v[i] = s.NonZeroScalar()
+			e.S.V = s.Point().Mul(ps[i].V, r.X[i])
+			e.P.VG = s.Point().Mul(v[i], r.H)
+			e.P.VH = s.Point().Mul(v[i], r.X[i])
+		}
+		enc[i] = e
+	}
+	gc, err := r.globalChallenge(pol, enc)
+	if err != nil {
+		return err
+	}
+	for i := 0; i < n; i++ {
+		if i != k {
+			enc[i].P.C = gc.Clone()
+			enc[i].P.R = s.Scalar().Sub(v[i], s.Scalar().Mul(gc, ps[i].V))
+		}
+	}
+	if enc[k].P.C.Equal(gc) {
+		r.unwitnessed = true
+	}
+	r.enc = enc
+	return nil
 }
 
 func (r *replayer) tamperDec(m Mut) {
@@ -503,7 +554,7 @@ func (r *replayer) judge(op string, p int, must, impl string, accepted bool, err
 	switch must {
 	case "acc":
 		if !accepted {
-			r.violate(op+"/honest-rejected", fmt.Sprintf("%s refuses an untouched item of an untouched package", op),
+			r.violate(op+"/honest-rejected", fmt.Sprintf("%s refuses an untouched item whose verification context is untouched", op),
 				map[string]any{"position": p, "err": errText})
 		}
 	case "rej":
@@ -567,7 +618,7 @@ func (r *replayer) checkBatch(op string, in, out []*pvss.PubVerShare, must, impl
 		switch must[p] {
 		case "acc":
 			if !got[p] {
-				r.violate(op+"/honest-excluded", op+" drops an untouched share of an untouched package", map[string]any{"position": p})
+				r.violate(op+"/honest-excluded", op+" drops an untouched share whose verification context (commitments, key, global challenge) is untouched", map[string]any{"position": p})
 			}
 		case "rej":
 			if got[p] && !r.s.Tiny {
